@@ -228,7 +228,7 @@ def random_shard(arg):
 
 
 def run(ctx):
-    ctx.map(random_shard, [(s, ctx.pick(150, 3000)) for s in ctx.shard_seeds(16)])
+    ctx.map(random_shard, [(s, ctx.pick(300, 3000)) for s in ctx.shard_seeds(16)])
 
 
 def replay(subcheck, case):
